@@ -627,6 +627,11 @@ Proof.
   rewrite <- (phi_id d rho (fun _ _ => eq_refl) x) at 2. rewrite <- (phi_id d rho (fun _ _ => eq_refl) y) at 2.
   exact (sim_same_net d pd mu rho MR rs_top rs_desc rs_ports rs_sigs rs_inst rs_single rs_inj rs_loc rs_val (wfs_step_total d Hwfs) x y Hx Hy).
 Qed.
+Theorem readback_dev x dev : valid d x -> dev_at d x = Ok dev -> dev_at pd x = Ok dev.
+Proof.
+  intros Hv Hd. rewrite <- (phi_id d rho (fun _ _ => eq_refl) x).
+  exact (sim_dev d pd mu rho MR rs_top rs_desc rs_ports rs_sigs rs_inst rs_single rs_inj rs_loc rs_val (wfs_step_total d Hwfs) x dev Hv Hd).
+Qed.
 End RbSim.
 End Readback.
 
@@ -634,12 +639,15 @@ End Readback.
 Theorem export_sound xi d : wfs d -> no_arrays d -> resolved_design d -> xinfo_ok xi d = true ->
   exists p tn pd, export_model xi d = Ok p /\ top_name d = Ok tn /\ design_of_pkg prims_ext p tn = Ok pd /\
     (forall x, valid d x -> valid pd x) /\
-    (forall x y, valid d x -> valid d y -> (same_net d x y <-> same_net pd x y)).
+    (forall x y, valid d x -> valid d y -> (same_net d x y <-> same_net pd x y)) /\
+    (forall x dev, valid d x -> dev_at d x = Ok dev -> dev_at pd x = Ok dev).
 Proof.
   intros Hwfs Hna Hres Hxi.
   destruct (export_ok xi d Hwfs Hna Hres Hxi) as [st [pms [_ [Hinv [Htop [_ [Hpms Hex]]]]]]].
   destruct (rb_design xi d Hwfs Hna Hres Hxi st pms Hinv Htop Hpms) as [tn [pd [atop [Htn [Hpd [Hpt [Hat [_ Hall]]]]]]]].
   eexists. exists tn, pd. split; [exact Hex|]. split; [exact Htn|]. split; [exact Hpd|]. split.
   - intros x. apply (readback_valid xi d Hwfs Hna st Hinv pd atop Hpt Hat Hall).
-  - intros x y. apply (readback_same_net xi d Hwfs Hna st Hinv pd atop Hpt Hat Hall).
+  - split.
+    + intros x y. apply (readback_same_net xi d Hwfs Hna st Hinv pd atop Hpt Hat Hall).
+    + intros x dev. apply (readback_dev xi d Hwfs Hna st Hinv pd atop Hpt Hat Hall).
 Qed.
